@@ -585,14 +585,24 @@ func (b *BaseStore) Load(ctx context.Context, amount int) error {
 			span.AddEvent("store-head-loaded")
 
 			span.AddEvent("store-heads-joining")
-			// Join trims the merged log to its last `size` entries and
-			// cannot be given a size larger than the merged log
-			size := amount
-			if size > oplog.Values().Len()+l.Values().Len() {
-				size = -1
+			// Join trims the merged log to its last `size` entries with
+			// [len-size:], which panics when size exceeds the number of
+			// entries it can list: merge everything first, then trim only
+			// if the log really is longer than the limit
+			if _, inErr = oplog.Join(l, -1); inErr == nil && amount > 0 && oplog.Values().Len() > amount {
+				var trim ipfslog.Log
+				trim, inErr = ipfslog.NewLog(b.IPFS(), b.Identity(), &ipfslog.LogOptions{
+					ID:               oplog.GetID(),
+					AccessController: b.AccessController(),
+					SortFn:           b.SortFn(),
+					IO:               b.options.IO,
+				})
+				if inErr == nil {
+					_, inErr = oplog.Join(trim, amount)
+				}
 			}
 
-			if _, inErr = oplog.Join(l, size); inErr != nil {
+			if inErr != nil {
 				span.AddEvent("store-heads-joining-failed")
 				// err = fmt.Errorf("unable to join log: %w", err)
 				// TODO: log
